@@ -7,5 +7,5 @@ unset GOTOOLCHAIN GOSUMDB
 (cd coq && coq_makefile -f _CoqProject -o Makefile.coq >/dev/null 2>&1 && timeout 3000 make -f Makefile.coq -j16 2>&1 | grep -v '^COQC\|^COQDEP\|^Closed under\|^$' | tail -20)
 mkdir -p build/bin
 cp ${VERIF_REPO:-/repo}/go.sum harness/go.sum
-(cd harness && for t in sthdrive witness crashdrive fcdrive concdrive bsdrive closedrive legdrive skel; do go build -tags verif -o ../build/bin/$t ./cmd/$t; done)
+(cd harness && for t in sthdrive witness crashdrive fcdrive concdrive bsdrive closedrive legdrive skel ciddrive; do go build -tags verif -o ../build/bin/$t ./cmd/$t; done)
 echo setup done
